@@ -454,6 +454,35 @@ func Run(tier string) {
 			inputs = append(inputs, input{"own-file-cut-armored", ab.Bytes()})
 		}
 	}
+	// armored files this run can open (one native recipient, one ssh-ed25519 recipient, seven native recipients: header
+	// lengths of every residue class modulo the armor's 48-byte lines), with one character of one armor line damaged:
+	// wherever Decrypt is when it meets the damage, the failure carries the armor error type
+	for li, rs := range [][]age.Recipient{{w.XIdentity("x1").Recipient()}, {w.Recipient("e1")},
+		{w.XIdentity("x1").Recipient(), w.XIdentity("x1").Recipient(), w.XIdentity("x1").Recipient(), w.XIdentity("x1").Recipient(), w.XIdentity("x1").Recipient(), w.XIdentity("x1").Recipient(), w.XIdentity("x1").Recipient()},
+		{w.XIdentity("x1").Recipient(), w.Recipient("e1")}} {
+		var ab bytes.Buffer
+		aw := armor.NewWriter(&ab)
+		wc, err := age.Encrypt(aw, rs...)
+		if err != nil {
+			vk.Infra("%v", err)
+		}
+		wc.Write(bytes.Repeat([]byte("armored plaintext "), 20))
+		wc.Close()
+		aw.Close()
+		text := ab.Bytes()
+		lines := bytes.SplitAfter(text, []byte("\n"))
+		off := 0
+		for k, ln := range lines {
+			if k > 0 && k < len(lines)-2 && len(ln) > 10 {
+				for _, at := range []int{0, len(ln) / 2, len(ln) - 2} {
+					d := append([]byte{}, text...)
+					d[off+at] = '!'
+					inputs = append(inputs, input{fmt.Sprintf("own-armor-damaged:%d", li), d})
+				}
+			}
+			off += len(ln)
+		}
+	}
 	tg := targets(w)
 	var skipped int64
 	vk.Parallel(len(inputs), 16, func(i int) {
@@ -477,6 +506,14 @@ func Run(tier string) {
 			if msg != "" {
 				run.Violation("C14:panic:"+sig, fmt.Sprintf("%s on input %s (%d bytes %q…): %s", t.name, in.name, len(in.b), trunc(in.b), msg), rp)
 				continue
+			}
+			if strings.HasPrefix(in.name, "own-armor-damaged") && t.name == "armor+Decrypt" {
+				var ae *armor.Error
+				if err == nil {
+					run.Violation("C14:armor-error-untyped:accepted:"+classOf(in.name), "a damaged armor line went unnoticed", rp)
+				} else if !errors.As(err, &ae) {
+					run.Violation("C14:armor-error-untyped:"+classOf(in.name), fmt.Sprintf("the only damage is one character of an armor line, yet Decrypt's error does not carry the armor error type: %T %v", err, err), rp)
+				}
 			}
 			if err != nil && strings.HasPrefix(err.Error(), "UNTYPED") {
 				run.Violation("C14:armor-error-untyped:"+classOf(in.name), fmt.Sprintf("armor failure without the armor error type on %s: %v", in.name, err), rp)
